@@ -264,3 +264,16 @@ package common
 //@   ensures[removed-from-stem] strIndex(splitLast(strFile, "/"), ".") >= 0 ==>
 //@        !has(f.freFileNameMap[splitLast(strFile, "/")[0:strIndex(splitLast(strFile, "/"), ".")]], strFile)
 //@ end
+
+// Configured ignore lists, used by the global lookup: functions of their arguments (the configuration is
+// not modified while an analysis pass runs - assumed, listed in the evidence).
+//@ func (*GlobalConfig).IsIgnoreNameVar
+//@   props C06 C07 C11
+//@   functional
+//@   trusted
+//@ end
+//@ func (*GlobalConfig).IsIgnoreFileDefineVar
+//@   props C06 C07 C11
+//@   functional
+//@   trusted
+//@ end
